@@ -25,6 +25,7 @@ OBLIGATIONS = [
     "SkVerif.C06.rel_eq_textbook",
     "SkVerif.C06.asym_eq_textbook",
     "SkVerif.C06.class_call_eq_function",
+    "SkVerif.C06.class_history_eq_function",
     "SkVerif.C06.mae_mse_eq_spec",
     "SkVerif.C06.mape_mspe_eq_spec",
     "SkVerif.C06.masym_eq_spec",
@@ -152,9 +153,14 @@ def to_line(c):
     hw = "none" if c["hw"] is None else show_rats(c["hw"])
     mo = c["mo"] if isinstance(c["mo"], str) else "w:" + show_rats(c["mo"])
     ef = lambda s: s if s in ("squared", "absolute") else "bad"
-    return "C06 %s %s %s %s %s %s %d %s %s %s %s %s %s %s %s %s" % (
+    line = "C06 %s %s %s %s %s %s %d %s %s %s %s %s %s %s %s %s" % (
         c["via"], c["m"], _mat(c["yt"]), _mat(c["yp"]), yb, ytr, c["sp"], ix, hw, mo,
         show_bool(c["sym"]), show_bool(c["sqrt"]), show_rat(c["thr"]), ef(c["l"]), ef(c["r"]), c["rlf"])
+    if c["via"] == "c" and c.get("hist"):
+        o = c["old"]
+        line += " %s %s %s %d %s %s %s %s" % (c["hist"], show_bool(o["sym"]), show_bool(o["sqrt"]), o["sp"],
+                                            show_rat(o["thr"]), ef(o["l"]), ef(o["r"]), o["rlf"])
+    return line
 
 
 # ----------------------------------------------------------------------------- real code
@@ -240,32 +246,65 @@ def _inputs(c, scale=1.0, swap=False, col=None):
     return yt, yp, yb, ytr
 
 
+def _ctor(c, o):
+    """constructor / set_params options of the metric class of case `c`, values taken from `o`"""
+    m = c["m"]
+    ctor = {}
+    if m in PCT:
+        ctor["symmetric"] = o["sym"]
+    if m in HAS_SQRT:
+        ctor["square_root"] = o["sqrt"]
+    if m in SCALED:
+        ctor["sp"] = o["sp"]
+    if m == "masym":
+        ctor.update(asymmetric_threshold=o["thr"], left_error_function=o["l"], right_error_function=o["r"])
+    if m == "relloss":
+        ctor["relative_loss_function"] = getattr(_mod(), FUNCS[o["rlf"]])
+    return ctor
+
+
 def run_real(c):
     m = c["m"]
     if c["via"] == "c":
         import sktime.performance_metrics.forecasting as M
+        from sklearn.base import clone
         _mod()
         yt, yp, yb, ytr = _inputs(c)
-        ctor = {}
-        if m in PCT:
-            ctor["symmetric"] = c["sym"]
-        if m in HAS_SQRT:
-            ctor["square_root"] = c["sqrt"]
-        if m in SCALED:
-            ctor["sp"] = c["sp"]
-        if m == "masym":
-            ctor.update(asymmetric_threshold=c["thr"], left_error_function=c["l"], right_error_function=c["r"])
-        if m == "relloss":
-            ctor["relative_loss_function"] = getattr(_mod(), FUNCS[c["rlf"]])
+        ctor = _ctor(c, c)
         o = _opts(c)
         kw = {"horizon_weight": o["horizon_weight"], "multioutput": o["multioutput"]}
         if m in SCALED:
             kw["y_train"] = ytr
         if m in RELATIVE:
             kw["y_pred_benchmark"] = yb
-        cls = _try(lambda: getattr(M, CLASSES[m])(**ctor)(yt, yp, **kw))
+        Cls = getattr(M, CLASSES[m])
+        hist = c.get("hist") or "fresh"
+
+        def with_history():
+            # the metric object's life before the observed call; options end up as `ctor` in every branch
+            if hist == "fresh":
+                ob = Cls(**ctor)
+            else:
+                ob = Cls(**_ctor(c, c["old"]))
+                if hist == "attr":
+                    for k_, v_ in ctor.items():
+                        setattr(ob, k_, v_)
+                else:
+                    ob.set_params(**ctor)
+                if hist == "clone":
+                    ob = clone(ob)
+                if hist == "reuse":
+                    try:
+                        ob(yp, yt, **kw)          # an earlier call on other data (truth and forecast exchanged)
+                    except Exception:
+                        pass
+            return ob(yt, yp, **kw)
+        cls = _try(with_history)
         fn = _try(lambda: _call(c, yt, yp, yb, ytr))
-        return "cls=%s fn=%s" % (cls, fn)
+        out = "cls=%s fn=%s" % (cls, fn)
+        if hist != "fresh":
+            out += " | fresh=" + _try(lambda: Cls(**ctor)(yt, yp, **kw))
+        return out
     yt, yp, yb, ytr = _inputs(c)
     main = _try(lambda: _call(c, yt, yp, yb, ytr))
     extras = []
@@ -531,6 +570,16 @@ def _vals(v):
     return [v[1]] if v[0] == "s" else list(v[1])
 
 
+HIST_TEXT = {"setp": "constructed with other options, then set_params(new options): ",
+             "attr": "constructed with other options, then the option attributes assigned: ",
+             "clone": "constructed with other options, set_params(new options), then sklearn clone(): ",
+             "reuse": "set_params(new options), called once on other data, then called again: "}
+
+
+def _hist_text(c):
+    return HIST_TEXT.get(c.get("hist") or "fresh", "")
+
+
 def oracle(c, real_out):
     fails = []
     main, _, extra = real_out.partition(" | ")
@@ -545,7 +594,12 @@ def oracle(c, real_out):
             if _real_value(cls)[0] == "e":
                 fails.append((_key(c, "raises-" + cls), "%s(...)(y_true, y_pred) raised %s; the function returned %s" % (CLASSES[m], cls, fn)))
             elif cls != fn:
-                fails.append((_key(c, "differs-from-function"), "class returned %s, function returned %s" % (cls, fn)))
+                fails.append((_key(c, "differs-from-function"), "%sclass returned %s, function returned %s" % (
+                    _hist_text(c), cls, fn)))
+            # … at every point of the object's life: same as a freshly constructed object with the current options
+            if "fresh" in ex and ex["fresh"] != cls:
+                fails.append((_key(c, "differs-from-fresh-object"), "%sobject returned %s, a freshly constructed one %s" % (
+                    _hist_text(c), cls, ex["fresh"])))
         return fails
     rv = _real_value(main)
     if not valid:
@@ -626,6 +680,7 @@ def features(c, real_out):
     main = real_out.split(" | ")[0]
     f = ["via:" + c["via"], "metric:" + c["m"]]
     if c["via"] == "c":
+        f.append("object-history:" + (c.get("hist") or "fresh"))
         f.append("class-result:" + main.split(" ")[0][4:].split(":")[0][:12])
         return f
     kind = main.split(":")[0] if main[:2] in ("s:", "a:") else main
@@ -921,12 +976,26 @@ def malformed_case(rng):
     return c
 
 
+HISTORIES = ("fresh", "setp", "attr", "clone", "reuse")
+
+
+def _old_options(rng, c):
+    """options the object is constructed with before they are changed: every one differs from the final value"""
+    return {"sym": not c["sym"], "sqrt": not c["sqrt"], "sp": c["sp"] + rng.choice((1, 2)),
+            "thr": c["thr"] + rng.choice((1.0, -0.5)), "l": "absolute" if c["l"] == "squared" else "squared",
+            "r": "absolute" if c["r"] == "squared" else "squared",
+            "rlf": rng.choice([b_ for b_ in BASES if b_ != c["rlf"]])}
+
+
 def class_cases(rng, count):
+    """every metric class x every object history (fresh / set_params / attribute assignment / clone / reuse)"""
     out = []
     for i in range(count):
         m = METRICS[i % len(METRICS)]
         c = random_case(rng, m, via="c")
         c["pd"] = None
+        c["hist"] = HISTORIES[(i // len(METRICS)) % len(HISTORIES)]
+        c["old"] = _old_options(rng, c)
         out.append(c)
     return out
 
@@ -935,12 +1004,12 @@ def gen_cases(tier, rng):
     ss = small_scope()
     if tier == "thorough":
         cases = list(ss)
-        nrand, nmal, ncls = 36000, 5000, 2700
+        nrand, nmal, ncls = 36000, 5000, 3600
     else:
         step = 8
         off = rng.randrange(step)
         cases = ss[off::step]
-        nrand, nmal, ncls = 2700, 450, 270
+        nrand, nmal, ncls = 2700, 450, 540
     for i in range(nrand):
         cases.append(random_case(rng, METRICS[i % len(METRICS)]))
     for _ in range(nmal):
